@@ -59,6 +59,8 @@ claimed = {
 na = {
  'C01': "relational, inductive statement over pairs of module sets implemented by mutually recursive resolver code and 4400 lines of generated clone code; no per-function contract dischargeable by SMT can carry it (DESIGN.md section 8)",
  'C06': "fidelity through the goyacc table interpreter and RFC 7950 string unescaping plus a hyperproperty over map-iteration order; not expressible as function contracts within reach (DESIGN.md section 8)",
+ 'C11': "the statement is about the VALUE of every if-feature expression under RFC 7950 precedence and about deviations changing exactly one property; within reach of per-function contracts is only crash freedom and termination of the operator-stack evaluator (relating it to the grammar needs induction over token sequences that an SMT solver does not do; the planned bounded equivalence check was not built), and deviations go through the resolver and 4400 lines of generated setters that are not under contract; a safety-only claim would pass every precedence-breaking change, so the property is not claimed (DESIGN.md section 0.7)",
+ 'C20': "the statement quantifies over every goroutine schedule; contract-based deductive verification of sequential functions has no handle on interleavings, and the frame-only reading (no package-level writes anywhere in the load and data paths) needs a whole-program effect inference, which is a static analysis outside this family (DESIGN.md section 0.7)",
  'C19': "composition of editor, two writers and the 4000-line patched encoding/xml; needs a string-theory specification of XML escaping (DESIGN.md section 8)",
 }
 pending = "contracts for this property are not built yet in this revision of /verif; it is not claimed until its check exists (see DESIGN.md section 7 for the plan)"
